@@ -234,6 +234,9 @@ func main() {
 	run.Set("command_sequences", int64(len(seqs)))
 
 	var streams, withLit int64
+	var seqsDone, budgetHit int64
+	t0 := time.Now()
+	budget := 18 * time.Minute // thorough only; the quick tier is never cut
 	nw := runtime.GOMAXPROCS(0)
 	var next int64 = -1
 	var wg sync.WaitGroup
@@ -245,12 +248,17 @@ func main() {
 			w := srvframe.NewWorker(60 * time.Second)
 			defer w.Close()
 			for {
+				if run.Thorough() && time.Since(t0) > budget {
+					atomic.StoreInt64(&budgetHit, 1)
+					return
+				}
 				base := int(atomic.AddInt64(&next, 1)) * chunk
 				if base >= len(seqs) {
 					return
 				}
 				for si := base; si < base+chunk && si < len(seqs); si++ {
 					sq := seqs[si]
+					atomic.AddInt64(&seqsDone, 1)
 					var cmds []srvframe.Cmd
 					stops := false
 					for k := 0; k < int(sq.n); k++ {
@@ -278,8 +286,11 @@ func main() {
 								if anyway && !wait {
 									continue
 								}
-								if !run.Thorough() && sq.n > 1 && pipelined && anyway {
-									continue // quick: the combination is explored on single commands only
+								if sq.n > 1 && pipelined && anyway {
+									continue // the combination is explored on single commands only
+								}
+								if sq.n > 2 && pipelined {
+									continue // triples: per-command segments only
 								}
 								st := &srvframe.Stream{Caps: caps, Start: start, Cmds: cmds, Pipelined: pipelined, Anyway: anyway}
 								playAndJudge(w, st, int64(si)*64+sub)
@@ -355,8 +366,12 @@ func main() {
 			run.Sample("stream", map[string]string{"case": st.Describe(), "client": vk.Q(srvframe.Wire(&st))})
 		}
 	}
-	run.Rule = "streams = sequences of <=2 (quick: first or second command from the full variant set, the other from the follow-up set) / <=2 full x full and <=3 (thorough: two from the small follow-up set, one full) command variants + 'zz NOOP' sentinel, x 3 capability sets x 3 starting states x {per-command segments, pipelined} x {client waits for '+', client sends anyway} (quick: pipelined+sends-anyway on single commands only). Variants: 12 templates (LOGIN, SELECT, CREATE, RENAME, STATUS, LIST, APPEND, APPEND flags+date, APPEND UTF8, SEARCH BODY, FETCH BODY[HEADER.FIELDS], STORE FLAGS), each string argument as atom / quoted / {n} / {n+} with n in {0,1,4096,4097} (APPEND message also 100 MiB and 100 MiB+1 announced; over-limit payload really sent in 2 cases), payload classes plain / command-like lines / rest-of-the-command-line + command lines / ends in CR, anomalies announced>actual (client stops) and junk between literal and CRLF, junk tail on every template; AUTHENTICATE PLAIN (no initial response, initial response, '*', 4096+ byte line, not base64, empty line); IDLE with 0-2 updates written by the idle goroutine and DONE / command-like garbage / over-long garbage / 'done'; NOOP; unknown command. Alphabet derivation: 4096/4097 = checkBufferedLiteral and acceptLiteral comparisons and the bufio buffer size (ReadLine isPrefix), appendLimit(+1) = handleAppend comparison, capability sets = the LiteralPlus test in acceptLiteral, starting states = checkState placement relative to literal acceptance in handleAppend. non-trivial = streams containing at least one literal"
-	run.Exhaustive = !devLimit
+	run.Rule = "streams = sequences of <=2 (quick: first or second command from the full variant set, the other from the follow-up set) / <=2 full x full and <=3 (thorough: two from the small follow-up set, one full) command variants + 'zz NOOP' sentinel, x 3 capability sets x 3 starting states x {per-command segments, pipelined} x {client waits for '+', client sends anyway} (pipelined+sends-anyway on single commands only; triples with per-command segments only). Variants: 12 templates (LOGIN, SELECT, CREATE, RENAME, STATUS, LIST, APPEND, APPEND flags+date, APPEND UTF8, SEARCH BODY, FETCH BODY[HEADER.FIELDS], STORE FLAGS), each string argument as atom / quoted / {n} / {n+} with n in {0,1,4096,4097} (APPEND message also 100 MiB and 100 MiB+1 announced; over-limit payload really sent in 2 cases), payload classes plain / command-like lines / rest-of-the-command-line + command lines / ends in CR, anomalies announced>actual (client stops) and junk between literal and CRLF, junk tail on every template; AUTHENTICATE PLAIN (no initial response, initial response, '*', 4096+ byte line, not base64, empty line); IDLE with 0-2 updates written by the idle goroutine and DONE / command-like garbage / over-long garbage / 'done'; NOOP; unknown command. Alphabet derivation: 4096/4097 = checkBufferedLiteral and acceptLiteral comparisons and the bufio buffer size (ReadLine isPrefix), appendLimit(+1) = handleAppend comparison, capability sets = the LiteralPlus test in acceptLiteral, starting states = checkState placement relative to literal acceptance in handleAppend. non-trivial = streams containing at least one literal"
+	run.Exhaustive = !devLimit && budgetHit == 0
+	run.Set("command_sequences_explored", seqsDone)
+	if budgetHit != 0 {
+		run.Assume(fmt.Sprintf("the %v wall-clock budget of the thorough tier stopped the exploration after %d of %d command sequences (in enumeration order: all single commands, then pairs, then triples); exhaustive=false", budget, seqsDone, len(seqs)))
+	}
 	run.Assume("the IDLE part runs free-running (not under the vsched controlled scheduler): the stub's Idle writes its updates and then signals the driver, which waits for that signal in addition to 'server goroutine parked in Read', so quiescence is exact and every run is deterministic; interleavings of the idle writer with the command goroutine are therefore not explored here")
 	run.Assume("a client that ignores a refusal (sends a synchronising literal's payload or a continuation line without '+') has itself turned those bytes into command text: from that point on only well-formedness (a) and continuation-request legality (d) are judged")
 	run.Assume("an error completion for a command the client abandoned half-way through a literal (then EOF) is tolerated; the statement only speaks about complete commands")
